@@ -147,7 +147,15 @@ type c19Runner func(cmd string) (stdout string)
 func c19Step(t *rapid.T, tdir string, cmd string, run c19Runner) {
 	d := telemetry.NewDir(tdir)
 	before := vsnap.Take(tdir)
-	modeBefore, _ := d.Mode()
+	// the mode the file records, read independently of the library: the first word of the file's text
+	// (surrounding white space, a trailing newline included, is not part of it; no file: the default, local; no word: none)
+	modeBefore := "local" // what a missing mode file means
+	if b, err := os.ReadFile(filepath.Join(tdir, "mode")); err == nil {
+		modeBefore = "" // an empty file records no mode
+		if fs := strings.Fields(string(b)); len(fs) > 0 {
+			modeBefore = fs[0]
+		}
+	}
 	t0 := time.Now().UTC()
 	out := run(cmd)
 	t1 := time.Now().UTC()
